@@ -71,10 +71,31 @@ fn run_one(sink: &Arc<Mutex<Vec<SpanRecord>>>, c: &Case, annotated: bool, uniq: 
     let local_name = format!("ctx-local-{}", uniq);
     let mut ctx_parent = None;
     let out;
-    {
+    // context 3: as context 1, but the caller's scope and root end (and a collector cycle runs)
+    // after the first poll that returned Pending: the call's span finishes after its trace was
+    // reported. Only for futures that are polled where they were created and that record one
+    // span per call.
+    let late = c.ctx == 3 && pair.is_async && !pair.eop && !(pair.id % 2 == 0 && (pair.kind == "AsyncTrait" || pair.kind == "BoxPinTail")) && pair.kind != "AsyncBoxPin";
+    if late {
+        let root = Span::root(root_name.clone(), SpanContext::new(TraceId(uniq as u128 + 1), SpanId(0)));
+        let g = root.set_local_parent();
+        ctx_parent = SpanContext::current_local_parent().map(|c| (c.trace_id.0, c.span_id.0));
+        rt::MID_POLL.with(|m| {
+            *m.borrow_mut() = Some(Box::new(move || {
+                drop(g);
+                drop(root);
+                fastrace::flush();
+            }))
+        });
+        out = (pair.drive)(annotated, &c.inp);
+        // the future never returned Pending: the context ends now
+        if let Some(f) = rt::MID_POLL.with(|m| m.borrow_mut().take()) {
+            f();
+        }
+    } else {
         let root = Span::root(root_name.clone(), SpanContext::new(TraceId(uniq as u128 + 1), SpanId(0)));
         let _g = if c.ctx >= 1 { Some(root.set_local_parent()) } else { None };
-        let _l = if c.ctx >= 2 { Some(LocalSpan::enter_with_local_parent(local_name.clone())) } else { None };
+        let _l = if c.ctx == 2 { Some(LocalSpan::enter_with_local_parent(local_name.clone())) } else { None };
         if c.ctx >= 1 {
             ctx_parent = SpanContext::current_local_parent().map(|c| (c.trace_id.0, c.span_id.0));
         }
@@ -231,7 +252,7 @@ fn case_strategy(npairs: usize, only: Option<usize>) -> BoxedStrategy<Case> {
     };
     let int = prop_oneof![4 => -20i64..200, 2 => any::<i64>(), 1 => Just(0i64), 1 => Just(i64::MAX), 1 => Just(i64::MIN)];
     let s = prop_oneof![3 => "[a-z]{0,6}", 1 => Just("é😀\"{}".to_string()), 1 => Just(String::new())];
-    (pair, [int.clone(), int.clone(), int.clone(), int], [s.clone(), s], prop_oneof![1 => Just(0u8), 3 => Just(1u8), 2 => Just(2u8)])
+    (pair, [int.clone(), int.clone(), int.clone(), int], [s.clone(), s], prop_oneof![1 => Just(0u8), 3 => Just(1u8), 2 => Just(2u8), 2 => Just(3u8)])
         .prop_map(|(pair, ints, strs, ctx)| Case { pair, inp: rt::Inputs { ints, strs }, ctx })
         .boxed()
 }
